@@ -1,10 +1,10 @@
 package main
 
 import (
-	"sort"
+	"fmt"
 	"go/token"
 	"go/types"
-	"fmt"
+	"sort"
 	"strings"
 
 	"golang.org/x/tools/go/ssa"
@@ -83,7 +83,9 @@ func runC06(c *Ctx) {
 			n++
 			ok, d := true, ""
 			for _, fs := range fx.pathFactsTo(in.Block(), 3) {
-				d1, ok1 := hasFact(fs, func(f Fact) bool { return f.Pol && f.T.Op == "call" && f.T.Name == "dyn" && rootParam(f.T.Args[0]) == 1 })
+				d1, ok1 := hasFact(fs, func(f Fact) bool {
+					return f.Pol && f.T.Op == "call" && f.T.Name == "dyn" && rootParam(f.T.Args[0]) == 1
+				})
 				if !ok1 {
 					d1, ok1 = hasFact(fs, func(f Fact) bool {
 						return f.Pol && f.T.Op == "bin" && f.T.Name == "==" && rootParam(f.T.Args[0]) == 1 && f.T.Args[1].isNilConst()
@@ -332,7 +334,9 @@ func runC06(c *Ctx) {
 				_, nilV := hasFact(fs, func(f Fact) bool {
 					return f.Pol && f.T.Op == "bin" && f.T.Name == "==" && f.T.Args[0].lastField() == "solutionValidator" && f.T.Args[1].isNilConst()
 				})
-				_, okV := hasFact(fs, func(f Fact) bool { return f.Pol && f.T.Op == "call" && f.T.Name == "dyn" && f.T.Args[0].lastField() == "solutionValidator" })
+				_, okV := hasFact(fs, func(f Fact) bool {
+					return f.Pol && f.T.Op == "call" && f.T.Name == "dyn" && f.T.Args[0].lastField() == "solutionValidator"
+				})
 				if !nilV && !okV {
 					ok2 = false
 				}
